@@ -12,15 +12,15 @@ import (
 
 // WTarget is a set of memory locations a function may write.
 type WTarget struct {
-	Region string
-	Idx    []Term // exact location (len == region arity) or [base] for rows/ranges
-	Lo, Hi Term   // absolute index range within the row (2-D regions)
-	Row    bool   // whole row Idx[0]
-	Whole  bool   // whole region
-	Ghost  string
-	Any    bool
-	Except []string // with Any: ghost variables that are not written
-	ElemBase Term   // all element objects selem(ElemBase, _) of a slice of structs (1-D field regions)
+	Region   string
+	Idx      []Term // exact location (len == region arity) or [base] for rows/ranges
+	Lo, Hi   Term   // absolute index range within the row (2-D regions)
+	Row      bool   // whole row Idx[0]
+	Whole    bool   // whole region
+	Ghost    string
+	Any      bool
+	Except   []string // with Any: ghost variables that are not written
+	ElemBase Term     // all element objects selem(ElemBase, _) of a slice of structs (1-D field regions)
 }
 
 // evalTargets evaluates a modifies clause to write targets.
